@@ -87,7 +87,9 @@ func (te *tableEngine) updateCurrentActionEndAt(event pokerface.GameEvent, gs *p
 
 	playerUnmoved := len(p.AllowedActions) > 0 && !p.Acted
 	if validRoundState && playerUnmoved && isActionValid {
+		te.deadlineLock.Lock()
 		te.table.State.CurrentActionEndAt = time.Now().Add(time.Second * time.Duration(te.table.Meta.ActionTime)).Unix()
+		te.deadlineLock.Unlock()
 	}
 }
 
